@@ -365,6 +365,9 @@ def c06(ctx, rep):
     v6 = _ipv6(ctx, rep, "C06", thorough)
     _pass_separation(ctx, rep, "C06", v4, v6)
     _plumbing(ctx, rep, "C06")
+    # "every address ... in a line" — both passes run on every line, unconditionally once enabled
+    from .checks_pipe import line_loop_rules
+    line_loop_rules(ctx, rep, "C06")
 
 
 # ----------------------------------------------------------------------
